@@ -429,7 +429,16 @@ impl NWorld {
                 let bytes = match by(1) { Some(a) => a, None => return bad };
                 let r = guard!(self, ConnectToken::read(&mut &bytes[..]));
                 match r {
-                    Ok(t) => ok_tree(token_tree(&t)),
+                    Ok(t) => {
+                        let mut again = vec![];
+                        t.write(&mut again).unwrap();
+                        let r2 = guard!(self, ConnectToken::read(&mut &again[..]));
+                        let second = match r2 {
+                            Ok(t2) => ok_tree(token_tree(&t2)),
+                            Err(e) => err_tree(&e),
+                        };
+                        ok_tree(l(vec![token_tree(&t), second]))
+                    }
                     Err(e) => err_tree(&e),
                 }
             }
